@@ -166,6 +166,8 @@ type FnCtx struct {
 	ghostByType map[string][]ghostField
 	inlinedExt  map[string]bool
 	axiomsUsed  []string
+	axiomName   map[int]string  // index in termAxioms -> origin (assumed axiom / proved lemma)
+	intrinsics  map[string]bool // dependency functions whose semantics is coded in the engine
 	coverCond   *Term
 	unfolding   map[string]int
 	revealed    map[string]bool
